@@ -47,7 +47,8 @@ class SysGlobals:
 class HTarget(Maintainable):
     def __init__(self, w, name, table, nested=None):
         self.w = w
-        self.name = name
+        self.hkey = name            # the harness's own name of the target
+        self.name = name            # the user-visible name (two targets may carry the same one)
         self.table = table          # tag -> [capacity, [durations...], cost]
         self.nested = nested or {}  # ('start'|'end', tag) -> (target index, tag)
         self.ncalls = {}
@@ -58,7 +59,7 @@ class HTarget(Maintainable):
             i = self.ncalls.get(('cap', tag), 0)
             self.ncalls[('cap', tag)] = i + 1
             v = v[i % len(v)]
-        self.w.tlog.append(('cap', self.name, tag, v))
+        self.w.tlog.append(('cap', self.hkey, tag, v))
         return v
 
     def get_work_order_duration(self, tag):
@@ -66,22 +67,22 @@ class HTarget(Maintainable):
         i = self.ncalls.get(tag, 0)
         self.ncalls[tag] = i + 1
         v = ds[i % len(ds)]
-        self.w.tlog.append(('dur', self.name, tag, v))
+        self.w.tlog.append(('dur', self.hkey, tag, v))
         return v
 
     def get_work_order_cost(self, tag):
         v = self.table[tag][2]
-        self.w.tlog.append(('cost', self.name, tag, v))
+        self.w.tlog.append(('cost', self.hkey, tag, v))
         return v
 
     def start_work(self, tag):
-        self.w.tlog.append(('start', self.name, tag))
+        self.w.tlog.append(('start', self.hkey, tag))
         n = self.nested.get(('start', tag))
         if n is not None:
             self.w.request(n[0], n[1], nested=True)
 
     def end_work(self, tag):
-        self.w.tlog.append(('end', self.name, tag))
+        self.w.tlog.append(('end', self.hkey, tag))
         n = self.nested.get(('end', tag))
         if n is not None:
             self.w.request(n[0], n[1], nested=True)
@@ -146,6 +147,8 @@ class MaintWorld(SysGlobals, CompWorld):
         for i, t in enumerate(params['targets']):
             self.targets.append(HTarget(self, f'T{i}', {(k,): list(v) for k, v in t['table'].items()},
                                         {(k.split(':')[0], (k.split(':')[1],)): tuple(v) for k, v in t.get('nested', {}).items()}))
+        for i, j in params.get('same_name', []):
+            self.targets[i].name = self.targets[j].name      # two different targets with one user-visible name
         self.tags = [tuple(x) for x in params['requests']]     # (target index, tag)
         self.ref = RefMaintainer(INF if cap is None else cap)
         self.costs = 0
@@ -185,16 +188,16 @@ class MaintWorld(SysGlobals, CompWorld):
         t = self.targets[ti]
         n0 = len(self.tlog)
         r = self.m.create_work_order(t, tag)
-        caps = [x for x in self.tlog[n0:] if x[0] == 'cap' and x[1] == t.name and x[2] == tag]
-        dup = self.ref.outstanding(t.name, tag)
+        caps = [x for x in self.tlog[n0:] if x[0] == 'cap' and x[1] == t.hkey and x[2] == tag]
+        dup = self.ref.outstanding(t.hkey, tag)
         if r == dup:
-            raise Violation('return_value', f'create_work_order({t.name},{tag}) returned {r} at t={self.env.now}; an identical '
+            raise Violation('return_value', f'create_work_order({t.hkey},{tag}) returned {r} at t={self.env.now}; an identical '
                                             f'order is {"" if dup else "not "}queued or in progress')
         if r:
             if len(caps) != 1:
-                raise Violation('capacity_query', f'needed capacity of ({t.name},{tag}) asked {len(caps)} times at creation')
-            self.ref.create(t.name, tag, caps[0][3])
-            self.tlog.append(('accepted', t.name, tag))
+                raise Violation('capacity_query', f'needed capacity of ({t.hkey},{tag}) asked {len(caps)} times at creation')
+            self.ref.create(t.hkey, tag, caps[0][3])
+            self.tlog.append(('accepted', t.hkey, tag))
             self.facts.append('accepted' + ('_nested' if nested else ''))
         else:
             self.facts.append('rejected_duplicate')
@@ -228,7 +231,7 @@ class MaintWorld(SysGlobals, CompWorld):
                 env._events.insert(0, ev)
                 kind = getattr(ev.action, 'func', ev.action).__name__
                 req = ev.action.keywords['request']
-                tname, tag = req.target.name, req.tag
+                tname, tag = req.target.hkey, req.tag
                 Environment.step(env)
                 now = env.now
                 a = ref.find(tname, tag)
@@ -301,10 +304,10 @@ class MaintWorld(SysGlobals, CompWorld):
         real = []
         for e in env._events:
             req = e.action.keywords['request']
-            real.append((canon.fnum(e.time), e.action.func.__name__, req.target.name, req.tag))
+            real.append((canon.fnum(e.time), e.action.func.__name__, req.target.hkey, req.tag))
         if sorted(real) != sorted(want):
             raise Violation('pending_orders', f'after {label}: scheduled starts/finishes {sorted(real)} vs reference {sorted(want)}')
-        q = [(r.target.name, r.tag) for r in m._request_queue]
+        q = [(r.target.hkey, r.tag) for r in m._request_queue]
         if q != [(o[0], o[1]) for o in ref.queue]:
             raise Violation('queue_order', f'after {label}: waiting orders {q} vs reference (request order) {[(o[0], o[1]) for o in ref.queue]}')
         if m.value != 100 - self.costs:
@@ -314,7 +317,8 @@ class MaintWorld(SysGlobals, CompWorld):
         for lab, key in (('enter_queue', 'accepted'), ('start_work_order', 'start'), ('finish_work_order', 'end')):
             recs = env.simulation_data.get(lab, {}).get('mt', [])
             new = [tuple(r) for r in recs[self.nrec[lab]:]]
-            exp = [(now, x[1], x[2], None) for x in self.tlog if x[0] == key]
+            vis = {t.hkey: t.name for t in self.targets}          # records carry the user-visible name of the target
+            exp = [(now, vis[x[1]], x[2], None) for x in self.tlog if x[0] == key]
             if new != exp:
                 raise Violation('records', f'{lab}: recorded {new}, happened {exp}')
         # the data tables are a pure log: drop what was checked so that states reached by different histories merge
